@@ -323,6 +323,19 @@ mod rust_types {
         pub f: Callback,
         pub s: Svc,
     }
+    // Rust identifiers need not be ASCII; definition names derived from them must still be Candid identifiers
+    #[derive(CandidType)]
+    #[allow(non_snake_case)]
+    pub struct Größe {
+        pub breite: u32,
+        pub höhe: u32,
+    }
+    #[derive(CandidType)]
+    pub enum Zustand {
+        Offen,
+        Belegt(Größe),
+        Kette(Box<Zustand>),
+    }
     // recursive types that occur only inside function / service reference types
     candid::define_function!(pub ListSource : () -> (List));
     candid::define_function!(pub ListSink : (List) -> ());
@@ -462,6 +475,10 @@ fn exports() -> Vec<Export> {
             ("y", var(vec![("Left", point()), ("Right", color())])),
         ]))),
         export!("Unit", Unit, || no_env(RType::Record(vec![]))),
+        export!("Zustand", Zustand, || {
+            let groesse = rec(vec![("breite", RType::Nat32), ("höhe", RType::Nat32)]);
+            (REnv(vec![var(vec![("Offen", RType::Null), ("Belegt", groesse), ("Kette", RType::Ref(0))])]), RType::Ref(0))
+        }),
         export!("ListSource", ListSource, || (list_env(), RType::func(vec![], vec![RType::Ref(0)], vec![]))),
         export!("ListSink", ListSink, || (list_env(), RType::func(vec![RType::Ref(0)], vec![], vec![]))),
         export!("TreeMap", TreeMap, || (tree_env(), RType::func(vec![RType::Ref(0), RType::Nat32], vec![RType::opt(RType::Ref(0)), RType::Nat32], vec![Mode::Query]))),
